@@ -161,6 +161,28 @@ theorem reader_refines_spec_streams (total : Nat) (s : Bytes) (hs : Inp s) (hst 
   obtain ⟨st, a, b, c, d, e, f, _⟩ := sStreams_refines hs hst hone h
   exact ⟨st, a, b, c, d, e, f⟩
 
+/-- **Time and attribute vectors, for every input** (the bodies of the CTime / ATime / MTime / Attributes properties of
+    FilesInfo): where the strict reader accepts a BooleanList + external byte + the values of the defined entries —
+    all defined, partially defined or none defined — py7zr's reader reads the same bytes and stores, entry by entry,
+    the value or "undefined". -/
+theorem reader_refines_spec_times (k : Impl.TimeKind) (w : String) (files : List FileEntry) (vals : List (Option Nat))
+    (s r : Bytes) (hs : Inp s) (h : Spec.sOptVector files.length 8 w s = .ok (vals, r)) :
+    (do
+      let defined ← Impl.pBools files.length true
+      let ext ← Impl.read1
+      if ext ≠ some 0 then Impl.fail .malformed else Impl.setTimes k files defined : P (List FileEntry)) s =
+      .ok ((files.zip vals).map (fun (f, v) => Impl.setTime k f (slotOfOpt v)), r) :=
+  (sOptVector_times_refines k w files vals s r hs h).1
+
+theorem reader_refines_spec_attrs (w : String) (files : List FileEntry) (vals : List (Option Nat))
+    (s r : Bytes) (hs : Inp s) (h : Spec.sOptVector files.length 4 w s = .ok (vals, r)) :
+    (do
+      let defined ← Impl.pBools files.length true
+      let ext ← Impl.read1
+      if ext = some 0 then Impl.setAttrs files defined else Impl.fail .unsupported : P (List FileEntry)) s =
+      .ok ((files.zip vals).map (fun (f, v) => { f with attributes := slotOfOpt v }), r) :=
+  (sOptVector_attrs_refines w files vals s r hs h).1
+
 /-- every folder whose coders are chained linearly without bind pairs to spare — one coder, no bind pair — has one
     result (the shape of every folder of a one-coder chain) -/
 theorem oneOut_single (f : Spec.SFolder) (hb : f.bindpairs = []) (hu : f.unpackSizes.length ≤ 1) : OneOut f := by
